@@ -195,7 +195,16 @@ def h_grid_spacing(ctx):
     ctx.assume(se > 0)
     ctx.assume(e - w <= se * Fraction(cfg["maxq"]))
     ctx.assume(n - s <= sn * Fraction(cfg["maxq"]))
-    east, north = vc.grid_coordinates((w, e, s, n), spacing=spacing, adjust=cfg["adjust"], pixel_register=cfg["pixel"])
+    if cfg.get("extra"):
+        # extra coordinates and the 1-D (meshgrid=False) form, here with a spacing instead of a shape
+        x1, x2 = ctx.real("extra1"), ctx.real("extra2")
+        east, north, up1, up2 = vc.grid_coordinates((w, e, s, n), spacing=spacing, adjust=cfg["adjust"], pixel_register=cfg["pixel"], extra_coords=[x1, x2])
+        ctx.claim("extra coordinates: constant arrays of the grid's shape, in the order given", And(np.shape(up1) == np.shape(east), np.shape(up2) == np.shape(east), And([eq(v, x1) for v in np.ravel(up1)]), And([eq(v, x2) for v in np.ravel(up2)])))
+        flat = vc.grid_coordinates((w, e, s, n), spacing=spacing, adjust=cfg["adjust"], pixel_register=cfg["pixel"], meshgrid=False)
+        ok = len(flat) == 2 and np.shape(flat[0]) == (east.shape[1],) and np.shape(flat[1]) == (east.shape[0],)
+        ctx.claim("meshgrid=False returns the easting and northing axis vectors of the same grid", And(ok, And([eq(a, b) for a, b in zip(flat[0], east[0, :])] + [eq(a, b) for a, b in zip(flat[1], north[:, 0])]) if ok else False))
+    else:
+        east, north = vc.grid_coordinates((w, e, s, n), spacing=spacing, adjust=cfg["adjust"], pixel_register=cfg["pixel"])
     ctx.claim("2-D arrays of equal shape", And(east.ndim == 2, east.shape == north.shape))
     for l, c in line_claims("east", east[0, :], w, e, se, None, cfg["adjust"], cfg["pixel"]):
         ctx.claim(l, c)
@@ -237,9 +246,10 @@ def h_profile(ctx):
     kw = {}
     if cfg.get("extra"):
         x = ctx.real("extra")
-        kw["extra_coords"] = x
+        kw["extra_coords"] = [x, ctx.real("extra_b")] if cfg["extra"] == 2 else x
     coords, dist = vc.profile_coordinates(p1, p2, size, **kw)
     ctx.claim("size points", And(len(coords[0]) == size, len(coords[1]) == size, len(dist) == size))
+    ctx.claim("easting, northing and one array per extra coordinate", len(coords) == 2 + (cfg.get("extra") or 0))
     dx = p2[0] - p1[0]
     dy = p2[1] - p1[1]
     den = max(size - 1, 1)
@@ -250,8 +260,12 @@ def h_profile(ctx):
     for k in range(size - 1):
         ctx.claim("distances increase", le(dist[k], dist[k + 1]))
     if cfg.get("extra"):
+        ctx.claim("extra coordinates have one value per profile point", all(len(c) == size for c in coords[2:]))
         for v in coords[2]:
             ctx.claim("extra coordinate constant along the profile", eq(v, x))
+        if cfg["extra"] == 2 and len(coords) == 4:
+            for v in coords[3]:
+                ctx.claim("second extra coordinate constant along the profile, in the order given", eq(v, kw["extra_coords"][1]))
     try:
         vc.profile_coordinates(p1, p2, 0)
         ctx.claim("size 0 rejected", False)
@@ -272,9 +286,7 @@ def _cfgs_grid_spacing(tier, seed):
     for adjust in ("spacing", "region"):
         for pixel in (False, True):
             for per in (False, True):
-                if tier == "quick" and per and pixel:
-                    continue
-                out.append({"adjust": adjust, "pixel": pixel, "per_direction": per, "maxq": "5/2" if tier == "quick" else "9/2"})
+                out.append({"adjust": adjust, "pixel": pixel, "per_direction": per, "maxq": ("3/2" if per and pixel else "5/2") if tier == "quick" else "9/2", "extra": per and not pixel})
     return out
 
 
@@ -291,7 +303,9 @@ def _cfgs_grid_shape(tier, seed):
 
 def _cfgs_s2s(tier, seed):
     shapes = [(2, 3), (3, 2), (2, 2)] if tier == "quick" else [(a, b) for a in range(2, 7) for b in range(2, 7)]
-    return [{"shape": sh, "pixel": p} for sh in shapes for p in (False, True)]
+    out = [{"shape": sh, "pixel": p} for sh in shapes for p in (False, True)]
+    # a single row or column is a valid shape for pixel registration (one cell spanning the region)
+    return out + [{"shape": sh, "pixel": True} for sh in ([(1, 3), (3, 1)] if tier == "quick" else [(1, 1), (1, 3), (3, 1), (1, 5)])]
 
 
 HARNESSES = [
@@ -332,8 +346,8 @@ HARNESSES = [
     Harness(
         "profile",
         h_profile,
-        lambda tier, seed: [{"size": s, "extra": x} for s in ((1, 2, 3) if tier == "quick" else (1, 2, 3, 4, 5)) for x in (0, 1)],
-        bounds="end points symbolic; size 1..3 (quick) / 1..5 (thorough)",
+        lambda tier, seed: [{"size": s, "extra": x} for s in ((1, 2, 3) if tier == "quick" else (1, 2, 3, 4, 5)) for x in (0, 1)] + [{"size": 2, "extra": 2}],
+        bounds="end points symbolic; size 1..3 (quick) / 1..5 (thorough); none, one or a list of two symbolic extra coordinates",
         outside="OUT-TRANSC: values of hypot/arctan2/cos/sin",
         engine={"oneshot": True},
     ),
